@@ -471,6 +471,36 @@ func cpDecodeContent(secs []cpSection) (*cpContent, error) {
 	return c, nil
 }
 
+// cpKvLeafCollision looks for two kv records of the file whose key||value concatenations are equal
+// (trackerdb.KvHashBuilderV6 hashes exactly that concatenation: they share one trie leaf).
+func cpKvLeafCollision(secs []cpSection) string {
+	seen := map[string]string{}
+	var keys []string
+	rec := map[string][2]string{}
+	for _, s := range secs {
+		if !isBalancesSection(s.Name) {
+			continue
+		}
+		c, err := decodeChunk(s.Data)
+		if err != nil {
+			continue
+		}
+		for _, kv := range c.KVs {
+			keys = append(keys, string(kv.Key))
+			rec[string(kv.Key)] = [2]string{string(kv.Key), string(kv.Value)}
+		}
+	}
+	sort.Strings(keys)
+	for _, k := range keys {
+		cat := rec[k][0] + rec[k][1]
+		if other, dup := seen[cat]; dup {
+			return fmt.Sprintf("kv %q (value %d bytes) and kv %q (value %d bytes) have the same key||value concatenation", other, len(rec[other][1]), k, len(rec[k][1]))
+		}
+		seen[cat] = k
+	}
+	return ""
+}
+
 func decodeBase(raw msgp.Raw) (trackerdb.BaseAccountData, error) {
 	var b trackerdb.BaseAccountData
 	err := protocol.Decode(raw, &b)
